@@ -2,7 +2,9 @@
 bound.  Oracle on the implementation: recompute box / AND / mean / count from
 (X, labels_), containment, stepwise monotonicity and the size bounds, for bare
 modules, FusionART channels, ARTMAP A/B sides and the base modules of
-DualVigilanceART / TopoART.  Tie: Lean end-to-end weights over Q (exact kernels)."""
+DualVigilanceART / TopoART; histories in which the read-only entry points (get_cluster_centers,
+get_bounding_boxes, restore_data, predict, predict_regression ...) are called between two training
+steps: a category changes only by learning.  Tie: Lean end-to-end weights over Q (exact kernels)."""
 from __future__ import annotations
 
 import numpy as np
@@ -12,7 +14,8 @@ from ..impl import make, quiet, exc_enum, MODES
 from . import e2e
 
 RULE = ("cases = (host estimator, module class, hyper-parameters, stream, mode, with/without vetoing reset "
-        "function); weights observed after every presented sample; non-trivial when some category absorbed >= 2 "
+        "function, read-only calls interleaved between the training steps); weights observed after every presented "
+        "sample and after every interleaved read-only call; non-trivial when some category absorbed >= 2 "
         "samples; distinct by hash of (host, spec, stream, mode)")
 
 TOL = 1e-9
@@ -88,6 +91,99 @@ def bounds(ctx, cls, m, rep, host, d_raw):
                 det = np.linalg.det(w[d:-1].reshape(d, d))
                 if det > p["rho"] * (1 + 1e-9) + 1e-300:
                     ctx.issue("violation", f"{host}BayesianART:det>rho", f"category {k}: det {det} rho {p['rho']} n {w[-1]}", rep)
+
+
+# ---------------------------------------------------------------- read-only calls between training steps
+# The property speaks about W "after every presented sample": whatever the user asks of the estimator between two
+# samples (centres, boxes, predictions, restored data), the categories are still the summaries of their members
+# and have not grown or shrunk: nothing was learned.
+
+
+def snap(m):
+    return [np.asarray(w, dtype=float).copy() for w in getattr(m, "W", [])]
+
+
+def same_weights(A, B):
+    return len(A) == len(B) and all(a.shape == b.shape and np.array_equal(a, b, equal_nan=True) for a, b in zip(A, B))
+
+
+def unit_bounds(d_raw):
+    """two rows [0..0], [1..1]: prepare_data on them fixes d_min_ = 0, d_max_ = 1, i.e. the identity map on [0,1]^d,
+    so restore_data / get_cluster_centers work on streams that are already in prepared form"""
+    return np.array([[0.0] * d_raw, [1.0] * d_raw])
+
+
+def module_reads(cls, m, d_raw):
+    """read-only public entry points of one elementary module"""
+    calls = [("get_cluster_centers", lambda Xs: m.get_cluster_centers())]
+    if cls == "FuzzyART":
+        calls.append(("get_bounding_boxes", lambda Xs: m.get_bounding_boxes()))
+        # what get_cluster_centers does, spelled out by the user: restore one stored row (a view, not a copy)
+        calls.append(("restore_data(weight-row)", lambda Xs: [m.restore_data(w.reshape((1, -1))) for w in m.W]))
+    if cls == "EllipsoidART" and d_raw >= 2:
+        calls.append(("get_2d_ellipsoids", lambda Xs: m.get_2d_ellipsoids()))
+    return calls
+
+
+def host_reads(host, cls, est, m, d_raw):
+    """(name, call(Xs)) for the read-only entry points of the estimator `est` whose elementary module is `m`;
+    Xs = a private copy of the last few rows presented so far"""
+    calls = [("predict", lambda Xs: est.predict(Xs)), ("restore_data(samples)", lambda Xs: est.restore_data(Xs))]
+    if host == "SimpleARTMAP/":
+        calls.append(("predict_ab", lambda Xs: est.predict_ab(Xs)))
+    if host in ("DualVigilanceART/", "TopoART/"):
+        calls.append((host[:-1] + ".get_cluster_centers", lambda Xs: est.get_cluster_centers()))
+    return calls + module_reads(cls, m, d_raw)
+
+
+def read_between_steps(ctx, ra, calls, watched, Xs, rep, log, step, where):
+    """make one randomly chosen read-only call and require every watched module's weights to be bit-identical
+    before and after it.  watched = [(signature prefix, module)]"""
+    name, call = ra.choice(calls)
+    before = [snap(m) for _, m in watched]
+    log.append([step, name])
+    try:
+        with quiet():
+            call(np.array(Xs[-4:], copy=True))
+    except Exception as e:
+        ctx.cov.hit(f"read-only-call-raised:{where}:{name}:{exc_enum(e)}")
+    for (pre, m), b in zip(watched, before):
+        a = snap(m)
+        if not same_weights(b, a):
+            k = next((j for j, (x, y) in enumerate(zip(b, a)) if x.shape != y.shape or not np.array_equal(x, y, equal_nan=True)), -1)
+            ctx.issue("violation", f"{pre}{name}:moved-a-weight",
+                      f"after step {step} the read-only call {name} changed the categories although no sample was presented: "
+                      + (f"category {k}: {b[k].tolist()} -> {a[k].tolist()}" if k >= 0 else f"{len(b)} -> {len(a)} categories"),
+                      dict(rep, step=step, read_only_call=name, read_only_calls=[list(c) for c in log]))
+    ctx.cov.hit(f"read-only-between-steps:{name}")
+    ctx.cov.hit(f"read-only-between-steps:on:{where}")
+    if any(len(b) > 0 for b in before):
+        ctx.cov.hit("read-only-call:with-categories-present")
+
+
+def fuzzy_extent(W):
+    """some Fuzzy ART box is more than a point"""
+    return any(np.any(w[:len(w) // 2] != 1.0 - w[len(w) // 2:]) for w in W)
+
+
+def fusion_case(r, nmax):
+    """two-channel FusionART: Fuzzy (beta = 1), ART1 and Gaussian channels, streams with repeated rows"""
+    n = r.randint(2, nmax)
+    chans = [r.choice(["FuzzyART", "ART1", "GaussianART"]), r.choice(["FuzzyART", "ART1", "GaussianART", "FuzzyART"])]
+    ds = [r.randint(1, 3), r.randint(1, 2)]
+    sp = []
+    for c_, d_ in zip(chans, ds):
+        s_ = specs.elem_spec(r, c_, specs.width(c_, d_) if c_ != "FuzzyART" else d_)
+        if c_ == "FuzzyART":
+            s_["beta"] = 1.0
+        sp.append(s_)
+    spec = {"cls": "FusionART", "modules": sp, "gamma_values": r.choice([[0.5, 0.5], [0.25, 0.75]]),
+            "channel_dims": [specs.width(c_, d_) for c_, d_ in zip(chans, ds)]}
+    blocks = [specs.elem_data(r, c_, n, d_, style=r.choice(["dups", "coarse", "blobs"])) for c_, d_ in zip(chans, ds)]
+    X = np.hstack(blocks)
+    # repeated rows: the second presentation of a row hits its category's centre / template exactly
+    idx = list(range(n)) + [r.randrange(n) for _ in range(r.randint(1, n))]
+    return spec, chans, ds, X[idx]
 
 
 def run(ctx):
@@ -173,6 +269,17 @@ def run(ctx):
         except Exception as e:
             cov.hit(f"make-raised:{cls}:{exc_enum(e)}")
             continue
+        # read-only calls between the training steps (own random stream: the training histories stay what they were)
+        ra = gen.rng_for(ctx.seed, "C02-readonly", i)
+        reads, read_log = None, []
+        if ra.random() < 0.5:
+            try:
+                with quiet():
+                    est.prepare_data(unit_bounds(d))
+                reads = host_reads(host, cls, est, m, d)
+                rep["read_only_calls"] = read_log
+            except Exception as e:
+                cov.hit(f"prepare-unit-bounds-raised:{host}{cls}:{exc_enum(e)}")
         step = {"i": -1}
         eps = r.choice([0.0, 1e-10, 0.125, 0.25])
         rep["eps"] = eps
@@ -234,6 +341,12 @@ def run(ctx):
                               f"{pr.issues[0][0]}: {pr.issues[0][1]} (match tracking MT- lowered the vigilance after a veto)",
                               dict(rep, step=t))
                 cov.hit("MT-minus:bound-probed")
+            if reads is not None and ra.random() < 0.6:
+                # `prev` stays the snapshot taken right after the sample: the next step's monotonicity is judged
+                # against it, whatever was called in between
+                read_between_steps(ctx, ra, reads, [(f"{host}{cls}.", m)], X[:t + 1], rep, read_log, t, f"{host}{cls}")
+                if cls == "FuzzyART" and fuzzy_extent(cur):
+                    cov.hit("read-only-call:fuzzy-box-with-extent")
         if not ok:
             continue
         if host in ("", "SimpleARTMAP/"):
@@ -245,22 +358,7 @@ def run(ctx):
     # Fuzzy (beta = 1), ART1 and Gaussian channels, streams with repeated rows and nested binary patterns
     for i in range(ctx.scale(60, 1200)):
         r = gen.rng_for(ctx.seed, "C02-fusion", i)
-        n = r.randint(2, nmax)
-        chans = [r.choice(["FuzzyART", "ART1", "GaussianART"]), r.choice(["FuzzyART", "ART1", "GaussianART", "FuzzyART"])]
-        ds = [r.randint(1, 3), r.randint(1, 2)]
-        sp = []
-        for c_, d_ in zip(chans, ds):
-            s_ = specs.elem_spec(r, c_, specs.width(c_, d_) if c_ != "FuzzyART" else d_)
-            if c_ == "FuzzyART":
-                s_["beta"] = 1.0
-            sp.append(s_)
-        spec = {"cls": "FusionART", "modules": sp, "gamma_values": r.choice([[0.5, 0.5], [0.25, 0.75]]),
-                "channel_dims": [specs.width(c_, d_) for c_, d_ in zip(chans, ds)]}
-        blocks = [specs.elem_data(r, c_, n, d_, style=r.choice(["dups", "coarse", "blobs"])) for c_, d_ in zip(chans, ds)]
-        X = np.hstack(blocks)
-        # repeated rows: the second presentation of a row hits its category's centre / template exactly
-        idx = list(range(n)) + [r.randrange(n) for _ in range(r.randint(1, n))]
-        X = X[idx]
+        spec, chans, ds, X = fusion_case(r, nmax)
         try:
             est = make(spec)
             with quiet():
@@ -276,5 +374,119 @@ def run(ctx):
             off += wdt
         cov.case(("fusion", spec, X.tolist()), True)
         cov.hit("fusion-channels:" + "+".join(chans))
+    # FusionART trained in batches with the regression / centre accessors called between the batches: every channel
+    # still holds the exact summary of its members, only grows, and is not touched by the calls
+    for i in range(ctx.scale(40, 400)):
+        r = gen.rng_for(ctx.seed, "C02-fusion-readonly", i)
+        spec, chans, ds, X = fusion_case(r, nmax)
+        mode = r.choice(MODES)
+        parts = gen.compositions(r, len(X))
+        read_log = []
+        rep = {"fusion": spec, "X": X.tolist(), "mode": mode, "batches": parts, "read_only_calls": read_log}
+        try:
+            est = make(spec)
+            with quiet():
+                est.prepare_data([unit_bounds(d_) for d_ in ds])
+        except Exception as e:
+            cov.hit(f"make-raised:FusionART:{exc_enum(e)}")
+            continue
+        watched = [(f"FusionART.channel/{c_}.", mod) for c_, mod in zip(chans, est.modules)]
+        reads = [("FusionART.get_cluster_centers", lambda Xs: est.get_cluster_centers()),
+                 ("FusionART.predict", lambda Xs: est.predict(Xs)),
+                 ("FusionART.predict_regression", lambda Xs: est.predict_regression(Xs)),
+                 ("FusionART.predict_regression[0]", lambda Xs: est.predict_regression(Xs, target_channels=[0])),
+                 ("FusionART.get_channel_centers(0)", lambda Xs: est.get_channel_centers(0)),
+                 ("FusionART.get_channel_centers(1)", lambda Xs: est.get_channel_centers(1))]
+        prev = [[] for _ in chans]
+        ok, seen = True, 0
+        for b, Xb in enumerate(gen.split(X, parts)):
+            try:
+                with quiet():
+                    est.partial_fit(Xb, match_tracking=mode)
+            except Exception as e:
+                cov.hit(f"train-raised:FusionART.partial_fit:{exc_enum(e)}")
+                ok = False
+                break
+            seen += len(Xb)
+            cur = [snap(mod) for mod in est.modules]
+            for k, c_ in enumerate(chans):
+                monotone(ctx, c_, prev[k], cur[k], dict(rep, batch=b, channel=k), "FusionART.channel/")
+            prev = cur
+            if r.random() < 0.7:
+                read_between_steps(ctx, r, reads, watched, X[:seen], rep, read_log, seen - 1, "FusionART(" + "+".join(chans) + ")")
+                if any(c_ == "FuzzyART" and fuzzy_extent(cur[k]) for k, c_ in enumerate(chans)):
+                    cov.hit("read-only-call:fuzzy-box-with-extent")
+        if not ok:
+            continue
+        off = 0
+        for k, mod in enumerate(est.modules):
+            wdt = spec["channel_dims"][k]
+            exact_summary(ctx, chans[k], mod, X[:, off:off + wdt], np.asarray(est.labels_), dict(rep, channel=k), "FusionART.channel/")
+            off += wdt
+        cov.case(("fusion-batches", spec, X.tolist(), mode, parts), len(est.modules[0].W) < len(X))
+        cov.hit("fusion-batches:" + "+".join(chans))
+    # ARTMAP: both sides are ART modules; trained in batches, with predict / predict_ab / predict_regression (which reads
+    # the B side's centres) between the batches
+    for i in range(ctx.scale(60, 600)):
+        r = gen.rng_for(ctx.seed, "C02-artmap", i)
+        n = r.randint(2, nmax)
+        ca = r.choice(["FuzzyART", "FuzzyART", "HypersphereART", "GaussianART", "ART1"])
+        cb = r.choice(["FuzzyART", "FuzzyART", "HypersphereART", "GaussianART"])
+        da, db = r.randint(1, 3), r.randint(1, 2)
+        sa = specs.elem_spec(r, ca, da)
+        sb = specs.elem_spec(r, cb, db)
+        for s_ in (sa, sb):
+            if s_["cls"] in ("FuzzyART", "HypersphereART") and r.random() < 0.7:
+                s_["beta"] = 1.0
+        Xa = specs.elem_data(r, ca, n, da, style=r.choice(["dups", "coarse", "blobs", "uniform"]))
+        Yb = specs.elem_data(r, cb, n, db, style=r.choice(["dups", "coarse", "blobs"]))
+        mode = r.choice(MODES)
+        eps = r.choice([0.0, 1e-10, 0.125])
+        parts = gen.compositions(r, n)
+        read_log = []
+        rep = {"host": "ARTMAP", "module_a": sa, "module_b": sb, "X": Xa.tolist(), "y": Yb.tolist(), "mode": mode, "eps": eps,
+               "batches": parts, "read_only_calls": read_log}
+        try:
+            est = make({"cls": "ARTMAP", "module_a": sa, "module_b": sb})
+            with quiet():
+                est.prepare_data(unit_bounds(da), unit_bounds(db))
+        except Exception as e:
+            cov.hit(f"make-raised:ARTMAP:{exc_enum(e)}")
+            continue
+        ma, mb = est.module_a, est.module_b
+        watched = [(f"ARTMAP.A/{ca}.", ma), (f"ARTMAP.B/{cb}.", mb)]
+        reads = [("ARTMAP.predict", lambda Xs: est.predict(Xs)), ("ARTMAP.predict_ab", lambda Xs: est.predict_ab(Xs)),
+                 ("ARTMAP.predict_regression", lambda Xs: est.predict_regression(Xs)),
+                 ("ARTMAP.predict_regression", lambda Xs: est.predict_regression(Xs))]
+        reads += [("module_a." + nm, f) for nm, f in module_reads(ca, ma, da)] + [("module_b." + nm, f) for nm, f in module_reads(cb, mb, db)]
+        prev_a, prev_b = [], []
+        ok, seen = True, 0
+        for b, (Xb, Yb_) in enumerate(zip(gen.split(Xa, parts), gen.split(Yb, parts))):
+            try:
+                with quiet():
+                    est.partial_fit(Xb, Yb_, match_tracking=mode, epsilon=eps)
+            except Exception as e:
+                cov.hit(f"train-raised:ARTMAP.partial_fit:{exc_enum(e)}")
+                ok = False
+                break
+            seen += len(Xb)
+            cur_a, cur_b = snap(ma), snap(mb)
+            monotone(ctx, ca, prev_a, cur_a, dict(rep, batch=b), "ARTMAP.A/")
+            monotone(ctx, cb, prev_b, cur_b, dict(rep, batch=b), "ARTMAP.B/")
+            prev_a, prev_b = cur_a, cur_b
+            # the B side is a plain clustering of y (no vetoes): its size bound holds in every mode
+            bounds(ctx, cb, mb, dict(rep, batch=b), "ARTMAP.B/", db)
+            if mode != "MT-":
+                bounds(ctx, ca, ma, dict(rep, batch=b), "ARTMAP.A/", da)
+            if r.random() < 0.7:
+                read_between_steps(ctx, r, reads, watched, Xa[:seen], rep, read_log, seen - 1, f"ARTMAP({ca},{cb})")
+                if (ca == "FuzzyART" and fuzzy_extent(cur_a)) or (cb == "FuzzyART" and fuzzy_extent(cur_b)):
+                    cov.hit("read-only-call:fuzzy-box-with-extent")
+        if not ok:
+            continue
+        exact_summary(ctx, ca, ma, Xa, np.asarray(ma.labels_), rep, "ARTMAP.A/")
+        exact_summary(ctx, cb, mb, Yb, np.asarray(mb.labels_), rep, "ARTMAP.B/")
+        cov.case(("artmap", sa, sb, rep["X"], rep["y"], mode, parts), len(mb.W) < n or len(ma.W) < n)
+        cov.hit(f"artmap-sides:{ca}+{cb}")
     e2e.base_histories(ctx, "C02", ctx.scale(150, 3000), ctx.scale(20, 80), fields=("labels", "W"), with_pred=False)
     e2e.sphere_histories(ctx, "C02", ctx.scale(80, 2000), ctx.scale(16, 50))
